@@ -233,6 +233,80 @@ def run_client_server(ctx):
                 ctx.violation("C11:tamper:not-detected:%s:%s" % (name, sig_method), "a changed %s still verifies" % name, dict(case, mutation=name))
 
 
+def run_http_clients(ctx):
+    """The HTTP clients that applications use (requests OAuth1Session, httpx OAuth1Client / AsyncOAuth1Client): what they put on the
+    wire -- method, URL, Host, Authorization, body -- verifies under the library's server, and its base string is the model's."""
+    import asyncio
+    import httpx
+    import requests as _rq
+    from authlib.integrations.httpx_client import AsyncOAuth1Client, OAuth1Client
+    from authlib.integrations.requests_client import OAuth1Session
+    m = ctx.model
+    rng = ctx.rng
+    for i in range(60 if ctx.tier == "quick" else 600):
+        sig_type = rng.choice(["HEADER", "HEADER", "QUERY"])
+        method = rng.choice(["GET", "GET", "POST"])
+        uri = rng.choice(["https://api.example.com/r", "https://api.example.com/r?b=2&a=1", "https://10.0.0.7/r?x=a%20b", "https://api.example.com:8443/p/q"])
+        host = rng.choice([None, None, "vhost.example.com", "api.example.com"])
+        form = {"f": rng.choice(["v", "v 1", "é"]), "a": "0"} if method == "POST" and rng.random() < 0.7 else None
+        csecret, tsecret = "cs", rng.choice([None, "ts"])
+        kw = dict(client_id="client-key", client_secret=csecret, token="tok" if tsecret else None, token_secret=tsecret, signature_type=sig_type)
+        hdrs = {"Host": host} if host else {}
+        wires, seen = {}, []
+
+        def handler(request):
+            seen.append((request.method, str(request.url), dict(request.headers), request.content.decode()))
+            return httpx.Response(200, json={})
+        real = time.time
+        time.time = lambda: 1_700_000_000
+        try:
+            sess = OAuth1Session(**kw)
+
+            def fake_send(r, **kwargs):
+                wires["requests"] = (r.method, r.url, dict(r.headers), r.body.decode() if isinstance(r.body, bytes) else (r.body or ""))
+                resp = _rq.Response()
+                resp.status_code = 200
+                resp._content = b"{}"
+                return resp
+            sess.send = fake_send
+            sess.request(method, uri, data=form, headers=dict(hdrs))
+            with OAuth1Client(transport=httpx.MockTransport(handler), **kw) as c:
+                c.request(method, uri, data=form, headers=dict(hdrs))
+            wires["httpx"] = seen.pop()
+
+            async def go():
+                async with AsyncOAuth1Client(transport=httpx.MockTransport(handler), **kw) as c:
+                    await c.request(method, uri, data=form, headers=dict(hdrs))
+            asyncio.run(go())
+            wires["async_httpx"] = seen.pop()
+        except Exception as e:  # noqa: BLE001
+            ctx.violation("C11:http-client:raises:%s" % type(e).__name__, "an OAuth 1 HTTP client raised while sending: %s" % str(e)[:100],
+                          {"sig_type": sig_type, "method": method, "uri": uri, "host": host, "form": form})
+            continue
+        finally:
+            time.time = real
+        for kind, (wm, wu, wh, wb) in wires.items():
+            case = {"http_client": kind, "sig_type": sig_type, "method": method, "uri": uri, "host": host, "form": form, "token_secret": tsecret}
+            ctx.case(case, ("http-client", kind, sig_type, method, uri, host, json.dumps(form), tsecret), "http-client:%s:%s" % (kind, sig_type))
+            h = {k.title(): v for k, v in wh.items()}
+            sh = {k: h[k] for k in ("Authorization", "Host", "Content-Type") if k in h}
+            if host and sh.get("Host") != host:
+                ctx.violation("C11:http-client:host-not-sent:%s" % kind, "the request went out with another Host than the one the application set (and the "
+                              "signature was made for)", dict(case, sent=sh.get("Host")))
+            try:
+                ok, req = server_verify(wm, wu, sh, wb if (h.get("Content-Type") or "").startswith("application/x-www-form-urlencoded") else "", csecret, tsecret, "HMAC-SHA1")
+            except Exception as e:  # noqa: BLE001
+                ctx.violation("C11:http-client:server-raises:%s:%s" % (kind, type(e).__name__), "server-side parsing of what the client sent raised", dict(case, error=str(e)[:100]))
+                continue
+            if not ok:
+                ctx.violation("C11:http-client:not-verified:%s:%s" % (kind, "form" if form else "no-form"), "what the %s client put on the wire does not verify under the library's server" % kind,
+                              dict(case, wire=[wm, wu, sh, wb]))
+                continue
+            base = SIG.generate_signature_base_string(req)
+            ctx.compare("base-string-of-signed-request", case, base,
+                        m.call("o1_base_string", {"method": wm, "uri": wu, "params": pairs_wire(req.params), "host": sh.get("Host")}))
+
+
 def run(ctx):
     ctx.oracles = oracles()
     ctx.rule = ("base string: method (4, mixed case) x URL (12: case, default/non-default ports, empty path, params, repeated and "
@@ -242,6 +316,7 @@ def run(ctx):
                 "verified by OAuth1Request + verify_*, then each single-field mutation must fail. distinct_nontrivial = distinct cases")
     run_base_string(ctx)
     run_client_server(ctx)
+    run_http_clients(ctx)
 
 
 def run_case(ctx, case):
